@@ -233,17 +233,17 @@ def gen_triples(rng, n, single=False):
     return out[:n]
 
 
-def gen_alphas(rng, code, a0, n_random, single=False):
+def gen_alphas(rng, code, a0, n_random, single=False, denormals=True):
     bps = [0.0, 1.0, -1.0]
     if code == '4' and a0 != 1:
         bps += [a0, -a0]
     out = []
     for bp in bps:
-        if bp == 0.0 and code not in ('0', '1'):
+        if bp == 0.0 and (code not in ('0', '1') or not denormals):
             # 0 is a breakpoint of codes 0 and 1 only; elsewhere tiny (not denormal) values instead of its ulp neighbours
             out += [0.0, 2.0 ** -30, -2.0 ** -30, 2.0 ** -20, -2.0 ** -20]
             continue
-        out += [bp] + [nxt(bp, k, single) for k in ((1, -1) if single else (1, 2, -1, -2))]
+        out += [bp] + [nxt(bp, k, single) for k in ((1, -1) if single or bp == 0.0 else (1, 2, -1, -2))]
     core_hi = a0 if code == '4' else 1.0
     for _ in range(n_random):
         out.append(rng.uniform(-core_hi, core_hi))
@@ -254,21 +254,24 @@ def gen_alphas(rng, code, a0, n_random, single=False):
     return out
 
 
-def point_batches(rng, nsets, per_set, n_random, single=False):
-    """one batch per code (and one extra for code 4 with a non-default alpha0): nsets sets, each 2 histos x
-    per_set/2 bins of triples and its own row of alphas"""
+def point_batches(rng, size, n_random, single=False):
+    """one batch per code (and one extra for code 4 with a non-default alpha0): `size[code] = (nsets, triples per set)`;
+    every set has its own triples (as histograms x bins) and its own row of alphas"""
     out = []
     for code in CODES:
-        for a0 in ([1] if code != '4' else [1, rng.choice([0.5, 2, 1.5, 0.75])]):
+        variants = [(1, size[code])]
+        if code == '4' and size.get('4x'):
+            variants.append((rng.choice([0.5, 2, 1.5, 0.75]), size['4x']))
+        for a0, (nsets, per_set) in variants:
             hs, rows = [], []
-            for _ in range(nsets if a0 == 1 else max(1, nsets // 2)):
+            for _ in range(nsets):
                 ts = gen_triples(rng, per_set, single)
                 rng.shuffle(ts)
                 if per_set % 2 or per_set < 2:
                     hs.append([[t] for t in ts])                # per_set histograms of one bin
                 else:
                     hs.append([ts[:per_set // 2], ts[per_set // 2:]])
-                rows.append(gen_alphas(rng, code, float(a0), n_random, single))
+                rows.append(gen_alphas(rng, code, float(a0), n_random, single, denormals=not rows))
             m = min(len(r) for r in rows)
             rows = [r[:m] for r in rows]
             out.append(dict(code=code, a0=a0, hs=hs, calls=[rows], kind='points'))
@@ -358,6 +361,51 @@ def qc_history_expr(b, upto):
     return 'q4 (snd (call QcT %s %s %s %s (run QcT %s %s %s %s %s) %s))' % (cell, dup, ddn, hs, cell, dup, ddn, hs, core.clist(evs), al)
 
 
+def _sha(path):
+    import hashlib
+    try:
+        return hashlib.sha256(open(path, 'rb').read()).hexdigest()
+    except OSError:
+        return 'missing'
+
+
+def _load_cache(name):
+    path = os.path.join(core.WORK, 'cache-C03', name + '.json')
+    try:
+        return path, (json.load(open(path)) if os.environ.get('VERIF_NO_CACHE') != '1' else {})
+    except (OSError, ValueError):
+        return path, {}
+
+
+def _save_cache(path, cache):
+    try:
+        os.makedirs(os.path.dirname(path), exist_ok=True)
+        if len(cache) > 100000:
+            cache = {}
+        tmp = path + '.%d.tmp' % os.getpid()
+        json.dump(cache, open(tmp, 'w'))
+        os.replace(tmp, path)
+    except OSError:
+        pass
+
+
+def cached_eval(ctx, name, header, exprs, shard):
+    """core.coq_eval with results cached by sha256(expression text, header, every .v the expression depends on):
+    vm_compute of identical text against identical definitions gives the identical normal form."""
+    import hashlib
+    dep = '|'.join(_sha(os.path.join(core.COQ, p)) for p in ('Num.v', 'TNum.v', 'Run.v', 'InterpFast.v', 'gen/InterpGen.v')) + header
+    path, cache = _load_cache(name)
+    hs = [hashlib.sha256((dep + e).encode()).hexdigest() for e in exprs]
+    todo = [i for i, h in enumerate(hs) if h not in cache]
+    ctx.coverage[name + '_cached'] = len(exprs) - len(todo)
+    if todo:
+        res = core.coq_eval(ctx, name, header, [exprs[i] for i in todo], shard=max(6, len(todo) // (2 * core.NCPU) + 1) if shard is None else shard)
+        for i, r in zip(todo, res):
+            cache[hs[i]] = r
+        _save_cache(path, cache)
+    return [cache[h] for h in hs]
+
+
 def rlit(x):
     f = core.frac(x)
     if f.denominator == 1:
@@ -381,14 +429,6 @@ def interval_goal(i, key, ref, eps):
             'then idtac "C03OK %d" else idtac "C03FAIL %d".\n' % (code, args, rlit(ref), rlit(eps), code, i, i))
 
 
-def _sha(path):
-    import hashlib
-    try:
-        return hashlib.sha256(open(path, 'rb').read()).hexdigest()
-    except OSError:
-        return 'missing'
-
-
 def run_interval(ctx, items, per_file=12):
     """items: list of (key, ref Fraction).  Returns dict index -> 'ok' | 'fail' | 'error'.
     Verdicts are cached under .work/cache-C03 keyed by the sha256 of (goal text, header, TNum.v, Num.v, gen/InterpGen.v):
@@ -397,11 +437,7 @@ def run_interval(ctx, items, per_file=12):
     d = os.path.join(ctx.work, 'interval')
     os.makedirs(d, exist_ok=True)
     dep = '|'.join(_sha(os.path.join(core.COQ, p)) for p in ('Num.v', 'TNum.v', 'gen/InterpGen.v')) + IV_HEADER
-    cpath = os.path.join(core.WORK, 'cache-C03', 'interval.json')
-    try:
-        cache = json.load(open(cpath)) if os.environ.get('VERIF_NO_CACHE') != '1' else {}
-    except (OSError, ValueError):
-        cache = {}
+    cpath, cache = _load_cache('interval')
     goal_text, hashes, cached = {}, {}, {}
     for i, (key, ref) in enumerate(items):
         eps = max(abs(ref), F(1, 10 ** 30)) / 10 ** 13
@@ -455,15 +491,7 @@ def run_interval(ctx, items, per_file=12):
         res_all[i] = res.get(j, 'error:no verdict')
         if res_all[i] == 'ok':
             cache[hashes[i]] = 'ok'
-    try:
-        os.makedirs(os.path.dirname(cpath), exist_ok=True)
-        if len(cache) > 200000:
-            cache = {}
-        tmp = cpath + '.%d.tmp' % os.getpid()
-        json.dump(cache, open(tmp, 'w'))
-        os.replace(tmp, cpath)
-    except OSError:
-        pass
+    _save_cache(cpath, cache)
     return res_all
 
 
@@ -488,7 +516,7 @@ def region(code, a0, al):
 
 def classify(code, a0, t, al, v, ref, f_at):
     """signature kind of a value mismatch at (t, al): continuity when the function itself jumps at the adjacent breakpoint,
-    extrapolation-anchor when the linear extrapolation misses exactly the anchor"""
+    else the region of alpha"""
     reg = region(code, a0, al)
     bps = [0.0, 1.0, -1.0] + ([a0, -a0] if code == '4' else [])
     for bp in bps:
@@ -496,11 +524,6 @@ def classify(code, a0, t, al, v, ref, f_at):
             vb = f_at(bp)
             if vb is not None and abs(v - vb) > 1e-6 * max(1.0, abs(vb), abs(v)):
                 return 'continuity@%+g' % bp
-    if reg == 'extrapolation' and code in ADDITIVE:
-        side = 1.0 if al > 0 else -1.0
-        anchor = float(ref_exact(code, t[0], t[1], t[2], side))
-        if abs((v + anchor) - float(ref)) <= 1e-9 * max(1.0, abs(float(ref)), abs(anchor)):
-            return 'extrapolation-anchor'
     return reg
 
 
@@ -543,7 +566,7 @@ def search(ctx, stats):
                         if not agrees(code, a0, t[0], t[1], t[2], al, ref, v, 1e-9):
                             kind = classify(code, a0, t, al, v, ref, f_at)
                             thm = {'anchor0': 'anchors', 'anchor+1': 'anchors', 'anchor-1': 'anchors', 'extrapolation': 'beyond',
-                                   'extrapolation-anchor': 'beyond', 'core-value': 'core formula'}.get(kind, 'continuous')
+                                   'core-value': 'core formula'}.get(kind, 'continuous')
                             ctx.violation('code%s:%s:%s' % (code, path, kind),
                                           'code %s (%s) at alpha=%r on (down, nom, up)=%r returns %r, the published formula gives %.17g'
                                           % (code, path, al, t, v, float(ref)),
@@ -655,8 +678,12 @@ def run(ctx):
     # ---- implementation runs -------------------------------------------------------------
     bks = backends_for(ctx)
     corpus = load_corpus()
-    b64 = corpus + point_batches(rng, ctx.n(2, 5), ctx.n(3, 6), ctx.n(4, 10))
-    b32 = point_batches(rng, ctx.n(1, 2), ctx.n(3, 4), ctx.n(2, 5), single=True)
+    q64 = {'0': (2, 4), '1': (2, 3), '2': (2, 4), '4': (1, 3), '4x': (1, 2), '4p': (2, 4)}
+    t64 = {'0': (5, 6), '1': (5, 6), '2': (5, 6), '4': (4, 6), '4x': (3, 4), '4p': (5, 6)}
+    q32 = {'0': (1, 3), '1': (1, 2), '2': (1, 3), '4': (1, 2), '4x': None, '4p': (1, 3)}
+    t32 = {'0': (2, 4), '1': (2, 4), '2': (2, 4), '4': (2, 4), '4x': (1, 2), '4p': (2, 4)}
+    b64 = corpus + point_batches(rng, q64 if ctx.quick else t64, ctx.n(4, 10))
+    b32 = point_batches(rng, q32 if ctx.quick else t32, ctx.n(2, 5), single=True)
     other = [b for b in bks if b[0] != 'numpy']
     hist = history_batches(rng, ctx.n(15, 100), [b for b in other if b[1] == '64b'])
     obs = {}       # key -> list of (value, tag)
@@ -709,7 +736,7 @@ def run(ctx):
     qkeys = [k for k in keys if k[0] in ADDITIVE]
     ikeys = [k for k in keys if k[0] not in ADDITIVE]
     try:
-        res = core.coq_eval(ctx, 'points', QC_HEADER % (' PV.gen.InterpGen' if have_gen else ''), [qc_point_expr(k, have_gen) for k in qkeys], shard=max(10, len(qkeys) // (2 * core.NCPU) + 1))
+        res = cached_eval(ctx, 'points', QC_HEADER % (' PV.gen.InterpGen' if have_gen else ''), [qc_point_expr(k, have_gen) for k in qkeys], None)
         for k, r in zip(qkeys, res):
             sn, sd, (fn_, fd) = core.parse_qc(r)
             vs, vf = F(sn, sd), F(fn_, fd)
@@ -732,7 +759,7 @@ def run(ctx):
             hidx.append((hi_, k))
     hmodel = {}
     try:
-        res = core.coq_eval(ctx, 'history', QC_HEADER % '', hexprs, shard=6)
+        res = cached_eval(ctx, 'history', QC_HEADER % '', hexprs, None)
         for (hi_, k), r in zip(hidx, res):
             hmodel[(hi_, k)] = core.to_frac(core.parse_qc(r))
     except core.CoqEvalError as e:
@@ -779,23 +806,26 @@ def run(ctx):
     suspicious = [(k, v, tag) for k, v, tag, m in disagreements]
     for k in model_problem:
         suspicious += [(k, v, tag) for v, tag in obs[k]]
-    seen_sig = set()
+    # ---- property-directed sweep of the implementation (always; simple inputs first) ------------
+    found += search(ctx, stats)
+
+    def already(prefix):
+        return any(v[0].startswith(prefix) for v in ctx.violations) or any(sg.startswith(prefix) for sg, _ in ctx.known_hits)
     for k, v, tag in suspicious:
         code, a0, lo, nom, hi, al = k
         ref = reference(*k)
         rtol = 1e-9 if tag[2] == '64b' else 2e-3
         if not agrees(code, a0, lo, nom, hi, al, ref, v, rtol):
+            found += 1
+            if already('code%s:%s:' % (code, tag[0])):
+                continue        # the sweep above (or an earlier point) already reports this code path with a simpler input
             sig = 'code%s:%s:%s' % (code, tag[0], region(code, a0, al))
             if tag[1] != 'numpy':
-                sig += ':' + tag[1].split('+')[0]
-            if sig in seen_sig:
-                continue
-            seen_sig.add(sig)
+                sig += ':' + tag[1].split('+')[0] + '-' + tag[2]
             ctx.violation(sig, 'code %s (%s, %s/%s) at alpha=%r on (down, nom, up)=%r returns %r, the published formula gives %.17g'
                           % (code, tag[0], tag[1], tag[2], al, (lo, nom, hi), v, float(ref)),
                           dict(kind='point', code=code, alpha0=a0, path=tag[0], backend=tag[1].split('+')[0], precision=tag[2], triple=[lo, nom, hi], alpha=al,
                                impl=v, expected=float(ref), expected_exact=str(ref), model=str(model.get(k)), theorem='C03 correspondence + C03_code%s_*' % code))
-            found += 1
     # histories: state machine model and fresh instance
     for hi_, b in enumerate(hist):
         if hist_results[hi_] is None:
@@ -827,8 +857,6 @@ def run(ctx):
                 else:
                     disagreements.append((('history', hi_, k), bad, ('fast', 'numpy', '64b'), None))
 
-    # ---- property-directed sweep of the implementation (always) ------------------------------
-    found += search(ctx, stats)
     th.join()
     ok, txt = proof.get('r', (False, 'prove did not run'))
     if not ok:
